@@ -164,6 +164,22 @@ class Ctx:
             return torch.tensor(flat, dtype=torch.complex128 if cplx else torch.float64).reshape(arr.shape)
         return T(symtorch.ops._ew1(symtorch.lift_elem)(arr) if arr.size else arr, dtype=dtype)
 
+    def choose(self, n, name="choice"):
+        """an integer in range(n): a symbolic selector made concrete by forking (every value is explored) in the symbolic
+        mode; taken from the counterexample / the seeded generator in the concrete modes"""
+        if not hasattr(self, "choices"):
+            self.choices = []
+        if self.mode == "sym":
+            k = self.ex.choose(n, name)
+        else:
+            pre = self.values.get("__choices__")
+            if pre is not None and len(self.choices) < len(pre):
+                k = int(pre[len(self.choices)]) % n
+            else:
+                k = self.rng.randrange(n)
+        self.choices.append(k)
+        return k
+
     # -- assumptions
     def assume(self, cond, note=None):
         if isinstance(cond, torch.Tensor):
@@ -302,6 +318,8 @@ class Ctx:
                 else:
                     out[idx] = model_value(m, e)
             vals[name] = out.tolist()
+        if getattr(self, "choices", None):
+            vals["__choices__"] = list(self.choices)
         if self.uf_tables:
             vals["__uf__"] = {}
             for fname, rec in self.uf_tables.items():
@@ -353,10 +371,17 @@ def run_concrete(scenario, params, mode, values=None, seed=0):
     return cx, exc
 
 
+def _vals_of(cx):
+    v = jsonable_vals(cx.inputs)
+    if getattr(cx, "choices", None):
+        v["__choices__"] = list(cx.choices)
+    return v
+
+
 def jsonable_vals(inputs):
     out = {}
     for n, v in inputs.items():
-        if n == "__uf__":
+        if n in ("__uf__", "__choices__"):
             out[n] = v
             continue
         a = np.asarray(v)
@@ -410,10 +435,10 @@ def run_config(prop, cfg_id, scenario, params, opts):
             for c in cr.claims:
                 if c["status"] == "failed":
                     res["violations"].append({"claim": c["name"], "detail": c["detail"], "source": "concrete-seeded",
-                                              "values": jsonable_vals(cr.inputs), "confirmed": True})
+                                              "values": _vals_of(cr), "confirmed": True})
             if er is not None and not isinstance(er, (PathAbort, Inconclusive, Skip)):
                 res["violations"].append({"claim": "no-unexpected-exception", "detail": cr.outcome[1],
-                                          "source": "concrete-seeded", "values": jsonable_vals(cr.inputs),
+                                          "source": "concrete-seeded", "values": _vals_of(cr),
                                           "confirmed": True, "tb": getattr(cr, "tb", None)})
             continue
         if cr.outcome and isinstance(cr.outcome, tuple) and cr.outcome[0] == "skip":
@@ -423,14 +448,17 @@ def run_config(prop, cfg_id, scenario, params, opts):
         for c in cr.claims:
             if c["status"] == "failed":
                 res["violations"].append({"claim": c["name"], "detail": c["detail"], "source": "concrete-seeded",
-                                          "values": jsonable_vals(cr.inputs),
+                                          "values": _vals_of(cr),
                                           "confirmed": True})
         if er is not None and not isinstance(er, (PathAbort, Inconclusive)):
             res["violations"].append({"claim": "no-unexpected-exception", "detail": cr.outcome[1],
                                       "source": "concrete-seeded",
-                                      "values": jsonable_vals(cr.inputs),
+                                      "values": _vals_of(cr),
                                       "confirmed": True, "tb": getattr(cr, "tb", None)})
-        cs, es = run_concrete(scenario, params, "shim", values={n: v for n, v in cr.inputs.items()}, seed=seed)
+        shim_vals = {n: v for n, v in cr.inputs.items()}
+        if getattr(cr, "choices", None):
+            shim_vals["__choices__"] = list(cr.choices)
+        cs, es = run_concrete(scenario, params, "shim", values=shim_vals, seed=seed)
         res["shim_validation"]["runs"] += 1
         if isinstance(cs.outcome, tuple) and cs.outcome and cs.outcome[0] == "inconclusive":
             res["harness_errors"].append("shim validation inconclusive: %s" % (cs.outcome[1],))
@@ -726,7 +754,7 @@ def _replay_candidate(scenario, params, cand, res, tentative=False):
         st2 = [c for c in cr2.claims if c["name"] == name and c["status"] == "failed"]
         if st2:
             cand["confirmed"] = True
-            cand["values"] = jsonable_vals(cr2.inputs)
+            cand["values"] = _vals_of(cr2)
             cand["replay"] = "real code violates the claim on seeded inputs: %s" % (st2[0]["detail"],)
             res["violations"].append(cand)
             return
